@@ -1110,7 +1110,19 @@ impl Planner {
         let node_list_op = Box::new(NodeListOperator::new(matching_nodes, 2048));
         let columns = vec![scan_variable];
 
-        Ok(Some((node_list_op, columns)))
+        // The index answers only the equality conjuncts: re-apply the whole predicate so that the
+        // remaining conjuncts (ranges, ORs, NOTs, other variables) are not lost.
+        let variable_columns: HashMap<String, usize> = columns
+            .iter()
+            .enumerate()
+            .map(|(i, name)| (name.clone(), i))
+            .collect();
+        let filter_expr = self.convert_expression(&filter.predicate)?;
+        let predicate =
+            ExpressionPredicate::new(filter_expr, variable_columns, Arc::clone(&self.store));
+        let operator = Box::new(FilterOperator::new(node_list_op, Box::new(predicate)));
+
+        Ok(Some((operator, columns)))
     }
 
     /// Extracts equality conditions (property = literal) from a predicate.
